@@ -4,14 +4,19 @@
   All statements are about `CijModel/Fill.lean` (the model of `cij/util/fill.py`, run by the driver over `Rat` on the
   very tables the real code gets) for an arbitrary linearly ordered field `α` (ℚ, ℝ, …); the relation rows are
   `Generated.constraints_*` / `Generated.constraintDens` (re-translated from /repo on every run).
-  `hs : solveStage … = some s` says that the model's own least-squares solve passed its exact check (it never
-  failed in any run; a failure is the separate outcome `Err.solver`, never a wrong table).
+  `hs : solveStage … = some s` says that the model's own least-squares solve passed its exact check; a failure would be
+  the separate outcome `Err.solver`, never a wrong table.  Since `lstsq_total` (section "the model's own solver never
+  fails", Lemmas/FillTotal.lean) that outcome is PROVED impossible: the system `(AAᵀ)² z = AAᵀ b` always has a solution
+  over a linearly ordered field, so `hs` holds for some `s` on every well-shaped input (`solve_stage_total`,
+  `fill_never_solver`); `rank_refusal_iff_total`, `triclinic_refusal_iff_total`, `fill_with_decided` are the statements
+  without that hypothesis.
 
   The model is the code of /repo a4e5038 (residuals always computed; only modulus columns dropped; empty relations
   still go through the rank test; `is_file` lookup): every clause below is a positive statement.
 -/
 import Mathlib.Analysis.Real.Sqrt
 import CijProofs.Lemmas.FillPerm
+import CijProofs.Lemmas.FillTotal
 set_option linter.unusedSectionVars false
 namespace Cij.C09
 open Cij Cij.Fill
@@ -371,6 +376,85 @@ theorem triclinic_supplied_unchanged {sel : List Nat} {selCols : List (List α)}
   rw [residual_shape sel selCols [] k τ hlen hidx]
   simpa using hτ
 
+/-! #### the model's own solver never fails -/
+
+/-- **lstsq_total.**  The model's minimum-norm least squares answers on EVERY well-shaped system — any rank, consistent or
+    not: the system `(AAᵀ)² z = AAᵀ b` it hands to its elimination always has a solution over a linearly ordered field
+    (`AAᵀ b ∈ range (AAᵀ)(AAᵀ)ᵀ`, Mathlib `Matrix.rank_self_mul_transpose`), the elimination finds one
+    (`solveAny_complete`) and `x = Aᵀ z` then passes the exact normal-equation check (`normalEq_of_sys_solved`). -/
+theorem lstsq_total {n : Nat} {A : List (List α)} {b : List α} (hrows : ∀ r ∈ A, r.length = n)
+    (hb : A.length = b.length) : ∃ x, lstsq n A b = some x :=
+  Fill.lstsq_total hrows hb
+
+/-- … hence the solve stage always reaches the decision stage: rows of at most 21 entries, right-hand sides as long as
+    the matrix has rows -/
+theorem solve_stage_total {A bs : List (List α)} (hrows : ∀ a ∈ A, a.length ≤ nsym)
+    (hbs : ∀ b ∈ bs, b.length = A.length) : ∃ s, solveStage A bs = some s :=
+  solveStage_total hrows hbs
+
+/-- the order of the equations is irrelevant AND both presentations are answered, with the same vector -/
+theorem equation_order_irrelevant_total {n : Nat} {A A' : List (List α)} {b b' : List α} (hb : b.length = A.length)
+    (hb' : b'.length = A'.length) (hp : (List.zip A b).Perm (List.zip A' b')) (hrows : ∀ a ∈ A, a.length ≤ n) :
+    ∃ x, lstsq n A b = some x ∧ lstsq n A' b' = some x := by
+  obtain ⟨x, hx⟩ := lstsq_total' hrows hb
+  exact ⟨x, hx, (lstsq_perm hb hb' hp hrows) ▸ hx⟩
+
+/-- **fill_never_solver.**  `Err.solver` is not an outcome of `fill`: for every table, system name, flag setting and
+    environment (a user-supplied relations file having at most 21 coefficients per row, as `linear_eq_to_matrix` over the
+    21 symbols produces) the result is a table or one of the Python-visible outcomes (ValueError, FileNotFoundError,
+    IndexError, LinAlgError, the two refusals). -/
+theorem fill_never_solver (env : Env) (system : Option String) (P : Params α) (t : Table α)
+    (huser : ∀ sys rows, env.userFile sys = some rows → ∀ r ∈ rows, r.coeffs.length ≤ nsym) :
+    fill env system P t ≠ .error .solver :=
+  fill_ne_solver env system P t huser
+
+/-- **fill_with_decided.**  With at least one recognised modulus column the result of `fillWith` IS the decision on a
+    solved record — there is no third case: `∃ s` with the solve stage returning `s` and the outcome being the verdict's
+    refusal or the written-back table.  (`s` is what `accept_bounds`, `accept_consistent_exact`,
+    `solution_is_least_squares`, `residual_refusal_iff`, `ssq_is_sum_of_squares` speak about.) -/
+theorem fill_with_decided {rel : Rows} {sel : List (Option Nat)} (P : Params α) (t : Table α)
+    (hsel : (selIdxOf sel).isEmpty = false) (hrel : ∀ r ∈ rel, r.coeffs.length ≤ nsym) (hlen : sel.length ≤ t.length) :
+    ∃ s, solveStage (stackA (α := α) (selIdxOf sel) rel)
+          ((List.range (nRows t)).map fun k => stackB (selColsOf sel t) rel k) = some s ∧
+      fillWith rel sel P t = match verdict P s with
+        | .error e => .error e
+        | .ok () => .ok (finish P t s.xs) := by
+  obtain ⟨s, hs⟩ := solveStage_stack_total rel sel t hrel hlen
+  exact ⟨s, hs, fillWith_of_solved hsel hs⟩
+
+/-- `rank_refusal_iff` without the hypothesis that the solve answered -/
+theorem rank_refusal_iff_total {rel : Rows} {sel : List (Option Nat)} {P : Params α} {t : Table α}
+    (hsel : (selIdxOf sel).isEmpty = false) (hidx : ∀ i ∈ selIdxOf sel, i < nsym)
+    (hrel : ∀ r ∈ rel, r.coeffs.length ≤ nsym) (hlen : sel.length ≤ t.length) :
+    fillWith rel sel P t = .error .refuseRank ↔
+      (P.ignoreRank = false ∧ ∃ v : List α, v.length = nsym ∧ (∃ x ∈ v, x ≠ 0) ∧
+        (∀ i ∈ selIdxOf sel, v.getD i 0 = 0) ∧ (∀ r ∈ rel, dot (castRow (α := α) r) v = 0)) := by
+  obtain ⟨s, hs⟩ := solveStage_stack_total rel sel t hrel hlen
+  exact rank_refusal_iff hsel hidx hs
+
+/-- the whole call, packaged system or user file: once the columns are recognised (`sel`) and the relations found
+    (`rel`), `fill` refuses for rank iff the flag is off and a non-zero relation-compatible tensor vanishes on all
+    supplied components — no side condition on the solver, none on the shape (the recognition produces one selector per
+    column, indices in range) -/
+theorem fill_rank_refusal_iff (env : Env) (sys : String) (P : Params α) (t : Table α) (sel : List (Option Nat))
+    (rel : Rows) (hrec : recognise (t.map (·.1)) = .ok sel) (hres : resolve env sys = .ok rel)
+    (hsel : (selIdxOf sel).isEmpty = false)
+    (huser : ∀ rows, env.userFile sys = some rows → ∀ r ∈ rows, r.coeffs.length ≤ nsym) :
+    fill env (some sys) P t = .error .refuseRank ↔
+      (P.ignoreRank = false ∧ ∃ v : List α, v.length = nsym ∧ (∃ x ∈ v, x ≠ 0) ∧
+        (∀ i ∈ selIdxOf sel, v.getD i 0 = 0) ∧ (∀ r ∈ rel, dot (castRow (α := α) r) v = 0)) := by
+  have hfill : fill env (some sys) P t = fillWith rel sel P t := by simp only [fill, hrec, hres]
+  rw [hfill]
+  exact rank_refusal_iff_total hsel (recognise_lt hrec) (resolve_coeffs_length env sys huser rel hres)
+    (le_of_eq (by rw [recognise_length hrec]; simp))
+
+/-- `triclinic_refusal_iff` without the hypothesis that the solve answered -/
+theorem triclinic_refusal_iff_total {sel : List (Option Nat)} {P : Params α} {t : Table α}
+    (hsel : (selIdxOf sel).isEmpty = false) (hidx : ∀ i ∈ selIdxOf sel, i < nsym) (hlen : sel.length ≤ t.length) :
+    fillWith [] sel P t = .error .refuseRank ↔ (P.ignoreRank = false ∧ ∃ j, j < nsym ∧ j ∉ selIdxOf sel) := by
+  obtain ⟨s, hs⟩ := solveStage_stack_total (α := α) [] sel t (by simp) hlen
+  exact triclinic_refusal_iff hsel hidx hs
+
 /-! #### lookup of the relations -/
 
 /-- the outcome does not depend on what `Path(system).exists()` says: a directory named like the crystal system in
@@ -456,6 +540,11 @@ example : outcome (fill env0 (some "cubic") (P0 false false)
 
 example : outcome (fill env0 (some "cubic") (P0 false false) [("c21", [1]), ("c11", [300])])
     = "ValueError" := by decide +kernel
+
+/-- `lstsq_total` on a rank-deficient AND inconsistent system (rows 1, 2 equal with different right-hand sides, row 3
+    zero with a non-zero right-hand side): the model answers with the minimum-norm least-squares solution -/
+example : kerWitness 2 ([[1, 1], [1, 1], [0, 0]] : List (List Rat)) = some [-1, 1] ∧
+    lstsq 2 ([[1, 1], [1, 1], [0, 0]] : List (List Rat)) [1, 3, 5] = some [1, 1] := by decide +kernel
 
 /-! non-vacuity of the column-order / letter-case clause: a rectangular two-volume table, the same columns in another
     order with two names re-cased; determined (both flags off) and rank-deficient (`ignore_rank`) -/
